@@ -250,9 +250,10 @@ TEXT = {
             'level': 'Theorems: code without an iterator body that both writes and opens another iterator never blocks (all loop counts, all dirty-entry counts), the excluded shape does block, and the current keepers contain no such site; BeginBlocker never panics for known chains; '
                      'an applied event fails on its own; tally and oracle never panic. PARTIAL: EndBlocker expiry refunds are not proved panic-free; deadlock freedom of the real store is the lock model plus watchdog runs, not a proof about cachekv/MemDB.',
             'note': 'Trusted: Coq kernel, the syntactic translator, the lock model of cachekv/MemDB, extraction + driver, Go harness with watchdog.'},
-    'C01': {'technique': 'Coq potential-function lemmas on the hub model (withdrawal, deposit, refund) + custody-ledger monitor over every co-executed history',
-            'level': 'Theorems: a withdrawal request never increases supply + in-flight value of any asset (all decimals 0..24, rates, discounts, amounts); an applied deposit raises it by exactly floor(locked value) and only for its asset; a hub refund returns exactly the in-flight value; a failed event changes nothing. '
-                     'PARTIAL: batch creation/cancellation (pure moves) and execution payouts are checked on every history by the monitor (potential grows only by applied deposits; potential <= custody ledger), not proved; one genuine defect is a known finding (execution claim dropped when its handling fails).',
+    'C01': {'technique': 'Coq potential-function invariant proved by induction over every hub history (history theorem) + custody-ledger monitor over every co-executed history',
+            'level': 'Theorem C01_history: along every history of hub operations from the empty state (withdrawal requests, cancellations, batch requests, attested deposits / transfers / batch executions / valset updates, Begin- and EndBlockers with timeouts, refunds, commission and fee payouts), for every parameter set with distinct prefix-free chain ids and every consistent token table with at most 18 external decimals and non-negative commission rates, '
+                     'supply + in-flight value of every asset never exceeds the hub value minted for the attested deposits of that asset, and each deposit term is at most the locked external value. Step lemmas: a withdrawal never increases the potential (all decimals 0..24), a deposit raises it by exactly floor(locked value), refunds return exactly the in-flight value, batching only moves transfers, a failed event changes nothing. '
+                     'PARTIAL: token-list changes inside a history and tokens with more than 18 decimals are excluded from the history theorem (the latter are the known findings C12/C19); the external custody itself (contract balance) is the monitor\'s ledger over co-executed histories, not part of the theorem; one genuine defect is a known finding (execution claim dropped when its handling fails).',
             'note': _HUB_NOTE},
     'C18': {'technique': 'Coq invariant over claim histories + order-independence lemma for the quorum + sorted-list proof of the weighted median + correspondence with the real x/oracle keeper',
             'level': 'Theorems for all histories and power distributions: epoch, prices and holders change at no step other than the epoch-boundary EndBlocker; voters are pairwise distinct and are exactly the validators with a stored (latest) report of the epoch; '
@@ -278,7 +279,7 @@ TEXT = {
             'level': 'Theorems (all histories, all configurations with prefix-free chain ids): every transfer (chain,id) is at most once in pool+batches, ids within the counter, fresh ids on creation; the status clause is refuted by a kernel-checked witness (known finding). The model is co-executed with the real keeper on generated histories and the placement/status monitor runs on the implementation.',
             'note': _HUB_NOTE},
     'C10': {'technique': 'Coq invariant by induction over histories + extraction-based correspondence',
-            'level': 'Theorems: every pending batch of every reachable state has 1..100 transfers of its own chain and token, nonce within the counter, unique per chain; creation rule (first min(100,n) candidates in descending store-key order, nonce/sequence = counter+1, no batch and no counter change on an empty pool). Fee-order vs byte-order of the key is PARTIAL (monitor checks numeric order on the implementation).',
+            'level': 'Theorems: every pending batch of every reachable state has 1..100 transfers of its own chain and token, nonce within the counter, unique per chain; creation rule (first min(100,n) candidates in descending store-key order, nonce/sequence = counter+1, no batch and no counter change on an empty pool); the store-key order IS the fee order (big-endian 32-byte fee, then 8-byte id: byte comparison = numeric comparison for fees < 2^256 and ids < 2^64), so every transfer taken into a batch has a fee >= every same-token transfer left in the pool (ties: higher id first). The monitor re-checks numeric order on the implementation.',
             'note': _HUB_NOTE},
     'C11': {'technique': 'Coq algebraic laws over Z (floor/tier lemmas) + extraction-based correspondence',
             'level': 'Theorems for all amounts, decimals 0..24, rates: exact debit of amount+fee, commission = floor(r*(amount+fee)) with r the configured rate reduced by exactly one tier of the table, scheduled amounts, atomic failure, exact deposit credit with truncation below one unit. Correspondence and monitor on the real msg server and event handler.',
